@@ -14,6 +14,7 @@ import (
 )
 
 type Clause struct {
+	Props    []string // when set (`ensures @C03 expr`): the obligation counts for these properties only
 	Optional bool // dropped (with a note) when it mentions an identifier that no longer exists
 	Kind string
 	Expr *SExpr
@@ -232,11 +233,21 @@ func (cs *Contracts) loadFile(file, pkgPath string) error {
 	cs.Files = append(cs.Files, file)
 	var cur *FuncContract
 	mkClause := func(kind, src string, rl rawLine) (*Clause, error) {
+		var props []string
+		for strings.HasPrefix(strings.TrimSpace(src), "@C") {
+			src = strings.TrimSpace(src)
+			i := strings.IndexAny(src, " \t")
+			if i < 0 {
+				break
+			}
+			props = append(props, src[1:i])
+			src = src[i+1:]
+		}
 		e, err := parseSpecExpr(src)
 		if err != nil {
 			return nil, fmt.Errorf("%s:%d: %v", rl.file, rl.line, err)
 		}
-		return &Clause{Kind: kind, Expr: e, Src: src, File: rl.file, Line: rl.line}, nil
+		return &Clause{Kind: kind, Expr: e, Src: strings.TrimSpace(src), File: rl.file, Line: rl.line, Props: props}, nil
 	}
 	for _, rl := range lines {
 		kw, rest := splitFirst(rl.text)
